@@ -106,22 +106,26 @@ def build_all():
         res["extract_ok"] = rc == 0
         res["extract_log"] = o
         if rc == 0:
-            tmp = facts + ".new"
-            if os.path.exists(tmp):
-                os.remove(tmp)
-            os.makedirs(os.path.dirname(tmp), exist_ok=True)  # a fresh checkout has no Gen/ directory (Facts.lean is untracked)
-            rc, o = run([os.path.join(bindir, "extract"), REPO, tmp])
-            if rc != 0 or not os.path.exists(tmp):
+            # Facts.lean (data) and Code.lean (translated pure functions, extract/translate.go) are both regenerated
+            code = os.path.join(LEAN, "Gonuts", "Gen", "Code.lean")
+            tmp, tmpc = facts + ".new", code + ".new"
+            for t in (tmp, tmpc):
+                if os.path.exists(t):
+                    os.remove(t)
+            os.makedirs(os.path.dirname(tmp), exist_ok=True)  # a fresh checkout has no Gen/ directory (generated files are untracked)
+            rc, o = run([os.path.join(bindir, "extract"), REPO, tmp, tmpc])
+            if rc != 0 or not os.path.exists(tmp) or not os.path.exists(tmpc):
                 res["extract_ok"] = False
                 res["extract_log"] += o
             else:
                 # delete-then-regenerate, but keep the old file when the content is identical (no rebuild)
-                if os.path.exists(facts) and open(facts).read() == open(tmp).read():
-                    os.remove(tmp)
-                else:
-                    if os.path.exists(facts):
-                        os.remove(facts)
-                    os.rename(tmp, facts)
+                for t, dst in ((tmp, facts), (tmpc, code)):
+                    if os.path.exists(dst) and open(dst).read() == open(t).read():
+                        os.remove(t)
+                    else:
+                        if os.path.exists(dst):
+                            os.remove(dst)
+                        os.rename(t, dst)
         # 2. lake build
         t0 = time.time()
         rc, o = run(["lake", "build", "Gonuts", "driver"], cwd=LEAN, timeout=3000)
